@@ -192,8 +192,12 @@ class G:
         if k < 0.9 and depth < self.maxdepth:
             v = "i%d" % self.uid()
             return [("FOR", v, r.randint(0, 2), self.nodes(depth + 1, cdefs, avail + [v], in_def, None, simple))]
-        if k < 0.95:
+        if k < 0.93:
             return [("V", r.choice(avail))]
+        if k < 0.96:
+            # an anonymous filtered block, also inside def and call bodies; it reads render-wide names only (a block in
+            # a call body is written beside body() and does not see the body's arguments)
+            return [("TF", [("T", "tf%d:" % self.uid()), ("V", r.choice(["x", "y"]))])]
         return [("T", "t%d" % self.uid())]
 
 
